@@ -2,13 +2,15 @@
 
 package controller
 
+import "strconv"
+
 func init() {
 	verifHarnesses["VerifHarness_C04"] = VerifHarness_C04
 }
 
 // VerifHarness_C04: the requested cloud target never exceeds
 // min(max_nodes, cloud group maximum); clamped requests land on the bound.
-// shape: [nodes, pods, failure budget, class menu]
+// shape: [nodes, pods, failure budget, class menu, prior scale-up scan (0/1)]
 func VerifHarness_C04() {
 	N, P, F, menu := verifShape(0), verifShape(1), verifShape(2), verifShape(3)
 	w := newWorld(F)
@@ -23,14 +25,47 @@ func VerifHarness_C04() {
 	o.MinNodes, o.MaxNodes = int(minEff), int(maxEff)
 	verifAssume(minEff < maxEff)
 	verifAssume(asgMin < asgMax)
-	g := w.addGroup(o, asgMin, asgMax, extra)
+	prior := verifShape(4) == 1
 	classes := [][]int{{tcNone, tcEsc}, {tcNone, tcEsc, tcForce}}[menu]
-	w.symNodes("", g, N, classes, false, []int{0}, false)
-	w.symPods("", g, P, 1, false, -8*w.cpuPerNode, false)
+	var g int
+	if !prior {
+		g = w.addGroup(o, asgMin, asgMax, extra)
+		w.symNodes("", g, N, classes, false, []int{0}, false)
+		w.symPods("", g, P, 1, false, -8*w.cpuPerNode, false)
+	} else {
+		// an earlier scan of the same controller that scaled the cloud group up; after its
+		// cool-down the cloud group's limits and the cluster change to the snapshot under test
+		o.ScaleUpCoolDownPeriod = "1s"
+		w.groups = nil
+		g = w.addGroup(o, 0, int64(N)+4, 0)
+		w.symNodes("", g, N, []int{tcNone}, false, []int{0}, false)
+		w.symPods("", g, P, 1, false, int64(N)*w.cpuPerNode*80/100/int64(P), false) // 80%: a small scale-up, well below every ceiling
+	}
 	asg := w.AS.Group(o.CloudProviderGroupName)
-	verifAssume(verifAnd(asgMin <= asg.Desired, asg.Desired <= asgMax))
-	desired := asg.Desired
+	if !prior {
+		verifAssume(verifAnd(asgMin <= asg.Desired, asg.Desired <= asgMax))
+	}
 	w.build()
+	if prior {
+		_ = w.ctrl.RunOnce()
+		verifSleepSeconds(3)
+		// the cloud group's own limits are changed from outside
+		verifAssume(verifAnd(asgMin <= asg.Desired, asg.Desired <= asgMax))
+		asg.Min, asg.Max = asgMin, asgMax
+		for i, n := range w.nodes {
+			is := "n" + strconv.Itoa(i)
+			class := classes[verifChoice(is+".class", len(classes))]
+			var age int64
+			if class == tcEsc {
+				age = verifInt(is+".taintAge", -60, 2000)
+			}
+			w.retaint(n, class, age)
+		}
+		for j, p := range w.pods {
+			w.setPodCPU(p, verifInt("p"+strconv.Itoa(j)+".cpu", 0, 8*w.cpuPerNode))
+		}
+	}
+	desired := asg.Desired
 	s := w.snap(g)
 	mark := len(w.J.Calls)
 	_ = w.ctrl.RunOnce()
